@@ -67,19 +67,27 @@ def h_prepare(H):
          clause="a forced (or first) run starts every per-shank output file empty; output paths never alias the input; per-shank channel lists are where(shank==s)+sync")
 def h_prepare_forced(H):
     _prepare24(H, (True,))
+    _prepare24(H, (True,), ids=(1, 3))          # the shanks are those of the map, whatever their ids (only shanks 1 and 3 enabled): one output per shank that has channels
 
 
-def _prepare24(H, flags):
+def _prepare24(H, flags, ids=(0, 1)):
     for overwrite in flags:
-        S = H.session(f"prepare.ow{overwrite}")
+        S = H.session(f"prepare.ow{overwrite}" + ("" if ids == (0, 1) else ".shanks" + "".join(map(str, ids))))
 
         def body(it, overwrite=overwrite):
-            fs_, conv, ap, napch = mk_conv(it)
+            fs_, conv, ap, napch = mk_conv(it, nshank=ids if ids == (0, 1) else None)
             n = napch
             shank = A.fresh_array("shankmap", "float32", (n,))
             it.session.contracts[spikeglx._map_channels_from_meta] = lambda it_, a, k: {"shank": shank, "col": None, "row": None, "flag": None}
+            if ids != (0, 1):
+                # the shanks are taken from the map itself (no nshank override): a map whose shank ids are not 0..n-1 (only shanks 1 and 3 enabled)
+                c_ = z3.Int(fresh_name("c"))
+                it.ctx.assume(z3.ForAll([c_], z3.Implies(z3.And(c_ >= 0, c_ < n), z3.Or(*[shank.uf(c_) == v for v in ids])), patterns=[shank.uf(c_)]))
+                # A-NP-SPEC np.unique of that column: the distinct ids in ascending order (both occur: the probe has channels on each enabled shank)
+                it.session.contracts[np.unique] = lambda it_, a, k: np.array(ids, dtype=np.float32) if a and a[0] is shank else NotImplemented
+                it.session.contracts[spikeglx._get_nshanks_from_meta] = lambda it_, a, k: len(ids)
             ex = []
-            for s in (0, 1):
+            for s in ids:
                 p = ap.parent.parent.joinpath("probe00" + chr(97 + s))
                 e = z3.Bool(f"folder{s}_exists")
                 fs_.exists[p.key] = SV(e)
@@ -89,7 +97,7 @@ def _prepare24(H, flags):
             # earlier call left in the flag must not decide this one
             conv.attrs["already_exists"] = SV(z3.Bool("flag_left_by_an_earlier_call"))
             info = run_function(it, neuropixel.NP2Converter._prepare_files_NP24, [conv], {"overwrite": overwrite})
-            tag = f"ow{overwrite}"
+            tag = f"ow{overwrite}" + ("" if ids == (0, 1) else ".shanks" + "".join(map(str, ids)))
             created = [op for op in fs_.log if op[0] in ("open_w", "mkdir")]
             ae = conv.already_exists
             ae_t = term(ae) if not isinstance(ae, bool) else z3.BoolVal(ae)
@@ -100,7 +108,7 @@ def _prepare24(H, flags):
             else:
                 it.ctx.oblige(f"overwrite.flag.{tag}", z3.Not(ae_t), "post")
                 truncated = {op[1] for op in fs_.log if op[0] == "open_w"}
-                it.ctx.oblige(f"overwrite.outputs_start_empty.{tag}", z3.BoolVal(sorted(info) == ["shank0", "shank1"] and all({"ap_file", "lf_file", "chns"} <= set(v) for v in info.values())
+                it.ctx.oblige(f"overwrite.outputs_start_empty.{tag}", z3.BoolVal(sorted(info) == [f"shank{i_}" for i_ in ids] and all({"ap_file", "lf_file", "chns"} <= set(v) for v in info.values())
                               and all(v[kk].key in truncated for v in info.values() for kk in ("ap_file", "lf_file"))), "post",
                               "a forced (or first) run starts every shank's ap and lf file empty: whatever an earlier run left under these names is truncated before samples are written")
             it.ctx.oblige(f"outputs_never_alias_input.{tag}", z3.BoolVal(all(op[1] != ap.key and not op[1].startswith(ap.parent.key + "/") for op in created)), "post",
